@@ -285,8 +285,8 @@ let dot_tokens (h : hp) (l : n dotstmt list) (ga : int) (na : int) (ea : int) : 
     | GraphAttr i -> if int_of_nat i = 0 then "G:rankdir=\"LR\"" else "G:label=\"g\""
     | NodeStmt (u, a) ->
         if not a then "N:" ^ key_str h u
-        else if na = 1 then Printf.sprintf "N:%s:[label=\"n%s\"]" (key_str h u) (key_str h u)
-        else Printf.sprintf "N:%s:[label=\"n%s\"][v=\"%s\"]" (key_str h u) (key_str h u)
+        else if na = 1 then Printf.sprintf "N:%s:[label=\"n%s\\l\"]" (key_str h u) (key_str h u)
+        else Printf.sprintf "N:%s:[label=\"n%s\\l\"][v=\"%s\"]" (key_str h u) (key_str h u)
                (match valof h u with Some v -> zstr v | None -> "0")
     | EdgeStmt (u, v, e, a) ->
         if not a then Printf.sprintf "E:%s>%s" (key_str h u) (key_str h v)
